@@ -782,6 +782,18 @@ class NpCalls:
                 out = out.w(runmax=True, idxtable=dict(t, back=True))
         return out
 
+    def np_expand_dims(self, interp, st, args, kwargs, node):
+        # np.expand_dims(a, axis=k): the same data with a length-one axis inserted (like a[:, None])
+        a = as_array(args[0])
+        ax = axis_arg(args, kwargs, 1)
+        out = a.w(deps=self.deps_of(args, kwargs), view_of=a.store)
+        if a.axes is not None and isinstance(ax, int) and -len(a.axes) - 1 <= ax <= len(a.axes):
+            k = ax if ax >= 0 else len(a.axes) + 1 + ax
+            out = out.w(axes=tuple(a.axes[:k]) + ('one',) + tuple(a.axes[k:]))
+        else:
+            out = out.w(axes=None)
+        return out
+
     def np_take(self, interp, st, args, kwargs, node):
         # np.take(a, indices, axis=k) == a[:, ..., indices] along axis k (a copy)
         a = as_array(args[0])
